@@ -6,6 +6,7 @@ import (
 	"fmt"
 	"go/types"
 	"math/big"
+	"regexp"
 	"strings"
 )
 
@@ -24,10 +25,16 @@ type Ctx struct {
 	nameMin int     // terms printing longer than this get named
 	byteArr map[int]*Sort
 	funcs   map[string]*Sym
+	bvSorts    map[int]*Sort
+	arraySorts map[string]*Sort
+	opaqueMin  int64 // [N]byte with N >= opaqueMin is an opaque value sort
 }
 
 func NewCtx(bv bool) *Ctx {
-	c := &Ctx{BV: bv, syms: map[string]*Sym{}, sorts: map[string]*Sort{}, fresh: map[string]int{}, strLits: map[string]*Term{}, nameMin: 160, byteArr: map[int]*Sort{}, funcs: map[string]*Sym{}}
+	c := &Ctx{BV: bv, syms: map[string]*Sym{}, sorts: map[string]*Sort{}, fresh: map[string]int{}, strLits: map[string]*Term{}, nameMin: 160, byteArr: map[int]*Sort{}, funcs: map[string]*Sym{}, bvSorts: map[int]*Sort{}, arraySorts: map[string]*Sort{}, opaqueMin: opaqueByteArrayMin}
+	if bv {
+		c.opaqueMin = 65 // bit-precise functions see hashes as real byte arrays
+	}
 	if bv {
 		c.W = c.bvSort(64)
 	} else {
@@ -42,14 +49,12 @@ func NewCtx(bv bool) *Ctx {
 	return c
 }
 
-var bvSorts = map[int]*Sort{}
-
 func (c *Ctx) bvSort(w int) *Sort {
-	if s, ok := bvSorts[w]; ok {
+	if s, ok := c.bvSorts[w]; ok {
 		return s
 	}
 	s := &Sort{Name: fmt.Sprintf("(_ BitVec %d)", w), BVWidth: w}
-	bvSorts[w] = s
+	c.bvSorts[w] = s
 	return s
 }
 
@@ -75,15 +80,13 @@ func (c *Ctx) declareSort(name string) *Sort {
 	return s
 }
 
-var arraySorts = map[string]*Sort{}
-
 func (c *Ctx) ArraySort(idx, elem *Sort) *Sort {
 	name := fmt.Sprintf("(Array %s %s)", idx.Name, elem.Name)
-	if s, ok := arraySorts[name]; ok && s.Idx == idx && s.Elem == elem {
+	if s, ok := c.arraySorts[name]; ok && s.Idx == idx && s.Elem == elem {
 		return s
 	}
 	s := &Sort{Name: name, Idx: idx, Elem: elem}
-	arraySorts[name] = s
+	c.arraySorts[name] = s
 	return s
 }
 
@@ -141,22 +144,29 @@ func (c *Ctx) Const(name string, s *Sort) *Term {
 // Func declares (once) and applies an uninterpreted function.
 func (c *Ctx) Func(name string, ret *Sort, args ...*Term) *Term {
 	name = sanitize(name)
-	sym, ok := c.funcs[name]
+	var as []string
+	var ss []*Sort
+	for _, a := range args {
+		as = append(as, a.Sort.Name)
+		ss = append(ss, a.Sort)
+	}
+	sig := name + "|" + strings.Join(as, ",") + "|" + ret.Name
+	sym, ok := c.funcs[sig]
 	if !ok {
-		var as []string
-		var ss []*Sort
-		for _, a := range args {
-			as = append(as, a.Sort.Name)
-			ss = append(ss, a.Sort)
+		smtName := name
+		if _, taken := c.syms[smtName]; taken {
+			// same Go-level function applied at another arity (e.g. byte slices of literal length)
+			c.fresh["sig:"+name]++
+			smtName = fmt.Sprintf("%s_sig%d", name, c.fresh["sig:"+name])
 		}
 		ss = append(ss, ret)
-		sym = c.addSym(name, fmt.Sprintf("(declare-fun %s (%s) %s)", name, strings.Join(as, " "), ret.Name), sortDeps(ss...)...)
-		c.funcs[name] = sym
+		sym = c.addSym(smtName, fmt.Sprintf("(declare-fun %s (%s) %s)", smtName, strings.Join(as, " "), ret.Name), sortDeps(ss...)...)
+		c.funcs[sig] = sym
 	}
 	if len(args) == 0 {
-		return &Term{Op: name, Sort: ret, Sym: sym}
+		return &Term{Op: sym.Name, Sort: ret, Sym: sym}
 	}
-	return &Term{Op: name, Args: args, Sort: ret, Sym: sym}
+	return &Term{Op: sym.Name, Args: args, Sort: ret, Sym: sym}
 }
 
 // Name gives a large term a define-fun name so printed queries stay small.
@@ -193,8 +203,21 @@ func Exists(vars []*Term, body *Term) *Term {
 // ---------------------------------------------------------------------------
 // Go types -> sorts
 
+var (
+	byteRe = regexp.MustCompile(`\bbyte\b`)
+	runeRe = regexp.MustCompile(`\brune\b`)
+)
+
+// typeKey: canonical spelling of a type (byte and rune are spelled as the types they alias).
 func typeKey(t types.Type) string {
-	return types.TypeString(t, nil)
+	s := types.TypeString(t, nil)
+	if strings.Contains(s, "byte") {
+		s = byteRe.ReplaceAllString(s, "uint8")
+	}
+	if strings.Contains(s, "rune") {
+		s = runeRe.ReplaceAllString(s, "int32")
+	}
+	return s
 }
 
 func isByteArray(t types.Type) (int64, bool) {
@@ -213,7 +236,7 @@ const opaqueByteArrayMin = 20
 
 func (c *Ctx) SortOf(t types.Type) *Sort {
 	t = types.Unalias(t)
-	if n, ok := isByteArray(t); ok && n >= opaqueByteArrayMin {
+	if n, ok := isByteArray(t); ok && n >= c.opaqueMin {
 		// hash-like value: opaque sort shared by all [N]byte types
 		if s, ok := c.byteArr[int(n)]; ok {
 			return s
